@@ -5,11 +5,11 @@ package main
 // discharge each by a local dominance argument.
 
 import (
-	"os"
 	"fmt"
 	"go/constant"
 	"go/token"
 	"go/types"
+	"os"
 	"strings"
 
 	"golang.org/x/tools/go/ssa"
@@ -286,7 +286,7 @@ func idxLessThanLen(facts []fact, i, x ssa.Value, strict bool) bool {
 				}
 			}
 		}
-		if !rIsLen || !sameVal(rx, x) || !sameNum(l, i) {
+		if !rIsLen || !(sameVal(rx, x) || stableFieldReload(rx, x)) || !sameNum(l, i) {
 			continue
 		}
 		if !f.truth {
@@ -1644,10 +1644,12 @@ func fieldAlwaysPositive(li *LockInfo, fv *types.Var) (bool, int, string) {
 }
 
 // reflectShape: a small abstract value for reflect.Value-typed SSA values:
-//   "ptr"    a pointer to a struct (reflect.ValueOf(*T), or Addr() of a value tested Kind()==Struct)
-//   "struct" the addressable struct such a pointer points to
-//   "field"  a field of such a struct (addressable)
-//   ""       unknown
+//
+//	"ptr"    a pointer to a struct (reflect.ValueOf(*T), or Addr() of a value tested Kind()==Struct)
+//	"struct" the addressable struct such a pointer points to
+//	"field"  a field of such a struct (addressable)
+//	""       unknown
+//
 // Parameters take the shape common to all module call sites (assumed while checking recursion).
 func reflectShape(li *LockInfo, v ssa.Value, assume map[ssa.Value]string) string {
 	v = resolveVal(v)
@@ -2184,4 +2186,62 @@ func reflectDescentDiscipline(li *LockInfo, f *ssa.Function) bool {
 		})
 	}
 	return okAll
+}
+
+// stableFieldReload: a and b are two loads of the same field of the same object (for _, s := range e.list { ...
+// e.list[:i] ... }: the range evaluated the field once, the body reads it again), and between the first and the
+// second nothing can have assigned the field: no store to it and no call other than a builtin lies on a path from
+// a to b. (Other goroutines are C15's subject: the field is lock-guarded there.)
+func stableFieldReload(a, b ssa.Value) bool {
+	la, okA := a.(*ssa.UnOp)
+	lb, okB := b.(*ssa.UnOp)
+	if !okA || !okB || la.Op != token.MUL || lb.Op != token.MUL || la == lb || la.Parent() != lb.Parent() {
+		return false
+	}
+	fa, okA := la.X.(*ssa.FieldAddr)
+	fb, okB := lb.X.(*ssa.FieldAddr)
+	if !okA || !okB || fa.Field != fb.Field || !types.Identical(fa.X.Type(), fb.X.Type()) {
+		return false
+	}
+	baseOf := func(v ssa.Value) ssa.Value {
+		// a pointer kept in a captured variable is read afresh at every use: compare the variable
+		if ld, ok := v.(*ssa.UnOp); ok && ld.Op == token.MUL {
+			switch ld.X.(type) {
+			case *ssa.FreeVar, *ssa.Alloc:
+				if len(storesTo(ld.X)) <= 1 {
+					return ld.X
+				}
+			}
+		}
+		return resolveVal(v)
+	}
+	if baseOf(fa.X) != baseOf(fb.X) {
+		return false
+	}
+	if !instrDominates(la, lb) {
+		return false
+	}
+	clean := true
+	eachInstr(la.Parent(), func(in ssa.Instruction) {
+		if !clean || in == ssa.Instruction(la) || in == ssa.Instruction(lb) {
+			return
+		}
+		disturbs := false
+		switch x := in.(type) {
+		case *ssa.Store:
+			if f2, isFA := x.Addr.(*ssa.FieldAddr); isFA && f2.Field == fa.Field && types.Identical(f2.X.Type(), fa.X.Type()) {
+				disturbs = true
+			}
+		case *ssa.Call:
+			if _, isB := x.Call.Value.(*ssa.Builtin); !isB {
+				disturbs = true
+			}
+		case *ssa.Go, *ssa.Defer:
+			disturbs = false
+		}
+		if disturbs && reachableInstr(la, in, nil) && reachableInstr(in, lb, nil) {
+			clean = false
+		}
+	})
+	return clean
 }
